@@ -381,6 +381,13 @@ REPEATS = [
       "c.conf": ["k c"]}, "main.conf"),
     ({"main.conf": ["%include d/a.conf", "%include d/../d/a.conf", "%include ./d/a.conf"],
       "d/a.conf": ["k a"]}, "main.conf"),
+    # fragments that are NOT self-contained and that nothing repairs afterwards: a section left open at the
+    # end of the included file (top level / inside a section / two levels down), a closer without opener
+    ({"main.conf": ["k a", "%include f.conf"], "f.conf": ["<s x>", "k b"]}, "main.conf"),
+    ({"main.conf": ["<s o>", "%include f.conf", "k c", "</s>"], "f.conf": ["<s x>", "k b"]}, "main.conf"),
+    ({"main.conf": ["%include a.conf", "k z"], "a.conf": ["k a", "%include d/b.conf"], "d/b.conf": ["<s y>", "k b"]}, "main.conf"),
+    ({"main.conf": ["<s o>", "%include f.conf"], "f.conf": ["k b", "</s>"]}, "main.conf"),
+    ({"main.conf": ["<s o>", "%include f.conf", "</s>"], "f.conf": ["<s x>", "</s>", "</s>", "<s y>"]}, "main.conf"),
 ]
 
 
@@ -410,6 +417,10 @@ def repeats(col):
                     f.write("".join(l + "\n" for l in lines))
             text = "".join(l + "\n" for l in _inline(files, main))
             inl = cs.load_text(schema, text)
+            if n >= 5:
+                # the statement: a fragment that closes a section it did not open or leaves one open is
+                # rejected - whatever the inlined text would do
+                inl = ("rejected", ValueError("fragment not balanced"))
             got = cs.outcome(ZConfig.loadConfig, schema, os.path.join(sub, main))
             col.case(("repeat", n), {"files": files, "outcome": cs.brief(got)} if n == 0 else None)
             if not cs.same_outcome(got, inl):
